@@ -61,4 +61,34 @@ def value_changing(run):
                     run.violation("%s then %s: the optimized query (fuse=%s) fails (%s), the unoptimized one computes" % (on, cn, fuse, got[1]), case)
                 elif got[1] != ref[1]:
                     run.violation("%s then %s: optimized (fuse=%s) %s, unoptimized %s" % (on, cn, fuse, _short(got[1]), _short(ref[1])), case)
-    run.section("value_changing", cases=n, operators=len(ops), consumers=len(consumers))
+    # row counts answered by shortcuts (Len / Size pushed through operators) vs the unoptimized plan
+    small = pd.DataFrame({"a": range(12), "b": [i % 3 for i in range(12)], "c": [float(i) for i in range(12)]})
+    d = rt.dx.from_pandas(small, npartitions=3)
+    d2 = rt.dx.from_pandas(small.iloc[:7].rename(columns={"a": "p", "b": "q", "c": "r"}), npartitions=2)
+    shapes = {
+        "concat axis=1": rt.dx.concat([d[["a"]], d[["c"]]], axis=1), "concat axis=1 of three": rt.dx.concat([d[["a"]], d[["b"]], d[["c"]]], axis=1),
+        "concat axis=1 unequal lengths": rt.dx.concat([d[["a"]], d2[["p"]]], axis=1), "concat axis=1 then column": rt.dx.concat([d[["a"]], d[["c"]]], axis=1)["c"],
+        "concat axis=1 then +1": rt.dx.concat([d[["a"]], d[["c"]]], axis=1) + 1, "concat axis=0": rt.dx.concat([d, d2.rename(columns={"p": "a", "q": "b", "r": "c"})]),
+        "concat axis=0 then column": rt.dx.concat([d, d])["a"], "filter": d[d.b > 0], "filter then +1": d[d.b > 0] + 1, "elemwise of two filters": d[d.b > 0].a + d.a,
+        "merge": d.merge(d2, left_on="b", right_on="q"), "drop_duplicates": d[["b"]].drop_duplicates(), "groupby": d.groupby("b").a.sum(), "repartition": d.repartition(npartitions=2),
+        "sort": d.sort_values("c"), "set_index": d.set_index("c"), "head": d.head(5, npartitions=2, compute=False), "tail": d.tail(2, compute=False), "partitions": d.partitions[[2, 0]],
+        "projection to nothing": d[[]], "isin filter": d[d.a.isin([1, 5, 7])], "dropna": d.where(d.a > 3).dropna(), "explode-like": d.map_partitions(lambda p: pd.concat([p, p])),
+        "cumsum": d.cumsum(), "shift": d.shift(1), "astype": d.astype({"a": "float64"}), "fillna": d.fillna(0), "assign": d.assign(z=d.a + 1), "index": d.index, "series": d.a,
+    }
+    for sn, q in shapes.items():
+        for what, f in (("size", lambda q: q.size), ("shape[0]", lambda q: q.shape[0] if hasattr(q, "shape") else q.size), ("count of index", lambda q: q.index.size if hasattr(q, "index") else q.size)):
+            sc = try_(lambda: f(q))
+            if sc[0] == "raise" or not hasattr(sc[1], "expr"):
+                continue
+            ref = try_(lambda: exec_expr(sc[1].expr.lower_completely())[0])
+            if ref[0] == "raise":
+                continue
+            n += 1
+            run.count(("length-shortcut", sn, what))
+            got = try_(lambda: exec_expr(sc[1].optimize().expr)[0])
+            case = {"kind": "length-shortcut", "query": sn, "what": what}
+            if got[0] == "raise":
+                run.violation("%s of %s: the optimized query fails (%s), the unoptimized one gives %s" % (what, sn, got[1], ref[1]), case)
+            elif int(got[1]) != int(ref[1]):
+                run.violation("%s of %s: optimized %s, unoptimized %s" % (what, sn, int(got[1]), int(ref[1])), case)
+    run.section("value_changing", cases=n, operators=len(ops), consumers=len(consumers), length_shapes=len(shapes))
